@@ -141,6 +141,18 @@ def malformed_stream(rnd, tier, per_seed=10):
                 cases.append(('IPv6', b2s(P.ipv6(rnd, pkt, 132)), 'stray-bytes-in-chunk'))
     for jl in (65533, 65534, 65535):       # the three chunk lengths whose rounding up to a multiple of 4 leaves 16 bits
         cases.append(('SCTP', b2s(P.sctp_large(rnd, 'jumbo', jumbo_len=jl)[0]), 'large-well-formed'))
+    # chunks of every type that has a fixed part (DATA 0, INIT 1, INIT ACK 2, SACK 3, HEARTBEAT 4, ABORT 6, SHUTDOWN 7, ERROR 9, COOKIE ECHO 10,
+    # ECNE 12, CWR 13 ...) whose declared length (4..15) is shorter than that fixed part but lies inside the packet, followed or not by
+    # another chunk: the value handed to the chunk parser is 0..11 bytes long
+    import struct as _st
+    for ctype in (list(range(0, 16)) + [64, 128, 192, 255] if T else [0, 1, 2, 3, 3, 4, 6, 7, 9, 10, 12, 13, 14]):
+        for clen in ([4, 5, 6, 7, 8, 9, 10, 11, 12, 13, 15] if T else [rnd.choice([5, 6, 7]), 8, rnd.choice([9, 10, 11]), 12]):
+            body = rnd.randbytes(clen - 4) + b'\0' * ((4 - clen % 4) % 4)
+            tail = rnd.choice([b'', P.sctp_chunk(rnd)[0]])
+            raw = _st.pack('!BBH', ctype, rnd.randrange(256), clen) + body + tail
+            pkt, _ = P.sctp(rnd, chunks=[(raw, {})])
+            for stack, full in (('SCTP', pkt), ('IPv6', P.ipv6(rnd, pkt, 132))):
+                cases.append((stack, b2s(full), 'short-typed-chunk'))
     # DATA chunks under every payload protocol identifier of the IANA registry's assigned range (0..75) and a few above: whatever a parser
     # does with an identifier it knows, an identifier it does not know is just a number
     for ppid in (list(range(0, 76)) + [132, 5683, 65535, 2 ** 32 - 1] if T else [0, 1, 3, 4, 6, 17, 18, 39, 41, 46, 47, 53, 60, 61, 62, 63, 64, 132, 5683]):
